@@ -131,7 +131,7 @@ def gen_jobs(ctx):
         jobs.append((name, text, sorted(set(inputs))))
     for i in range(20 if quick else 120):
         for gen in (gramgen.lr1_twin_grammar, gramgen.ctx_nullable_grammar, gramgen.unit_chain_grammar,
-                    gramgen.follow_chain_grammar):
+                    gramgen.follow_chain_grammar, gramgen.epsilon_chain_grammar):
             prods, text = gen(rng)
             alpha = gramgen.alphabet_of(text)
             base = []
